@@ -95,30 +95,53 @@ type scmWorld struct {
 	msgr   *guardedMessenger
 	agg    *standardaggregator.Service
 	nVals  uint64
+	f      faults
 	base   uint64
 	duties map[uint64]*synccommitteemessenger.Duty // by slot, rebuilt before each repetition
 }
 
 const scmSlotsPerRep = 8
 
-type scmRoots struct{}
+// scmFaults: what the doubles of the sync committee services need to decide
+// their scripted faults (see faults_test.go): the scenario's fault function and
+// the clock (the controller starts its jobs from a context of its own, so there
+// the slot of the repetition stands in for the operation).
+type scmFaults struct {
+	f   faults
+	clk *clock
+}
 
-func (scmRoots) BeaconBlockRoot(context.Context, *api.BeaconBlockRootOpts) (*api.Response[*phase0.Root], error) {
+func (s scmFaults) key(ctx context.Context, x uint64) uint64 {
+	return callOf(ctx)<<24 ^ s.clk.slot.Load()<<8 ^ x
+}
+
+type scmRoots struct{ scmFaults }
+
+func (d scmRoots) BeaconBlockRoot(ctx context.Context, _ *api.BeaconBlockRootOpts) (*api.Response[*phase0.Root], error) {
+	if d.f.hit("headroot-err", d.key(ctx, 0)) {
+		return nil, strErr("scripted head root failure")
+	}
 	r := rootOf(7)
 	return &api.Response[*phase0.Root]{Data: &r, Metadata: map[string]any{}}, nil
 }
 
-type scmSubmitter struct{}
+type scmSubmitter struct{ scmFaults }
 
-func (scmSubmitter) SubmitSyncCommitteeMessages(context.Context, []*altair.SyncCommitteeMessage) error {
+func (d scmSubmitter) SubmitSyncCommitteeMessages(ctx context.Context, msgs []*altair.SyncCommitteeMessage) error {
+	if d.f.hit("submitmsg-err", d.key(ctx, uint64(len(msgs)))) {
+		return strErr("scripted submission failure")
+	}
 	return nil
 }
 
-func (scmSubmitter) SubmitSyncCommitteeContributions(context.Context, []*altair.SignedContributionAndProof) error {
+func (d scmSubmitter) SubmitSyncCommitteeContributions(ctx context.Context, c []*altair.SignedContributionAndProof) error {
+	if d.f.hit("submitcontrib-err", d.key(ctx, uint64(len(c)))) {
+		return strErr("scripted submission failure")
+	}
 	return nil
 }
 
-type scmSigner struct{}
+type scmSigner struct{ scmFaults }
 
 func sigFor(tag byte, a e2wtypes.Account, x uint64) phase0.BLSSignature {
 	h := sha256.Sum256([]byte(fmt.Sprintf("%d|%d|%d", tag, a.(*fakeAccount).index, x)))
@@ -128,7 +151,10 @@ func sigFor(tag byte, a e2wtypes.Account, x uint64) phase0.BLSSignature {
 	return s
 }
 
-func (scmSigner) SignSyncCommitteeSelections(_ context.Context, accounts []e2wtypes.Account, slot phase0.Slot, subcommittees []uint64) ([]phase0.BLSSignature, error) {
+func (d scmSigner) SignSyncCommitteeSelections(ctx context.Context, accounts []e2wtypes.Account, slot phase0.Slot, subcommittees []uint64) ([]phase0.BLSSignature, error) {
+	if d.f.hit("signsel-err", d.key(ctx, uint64(slot)%256)) {
+		return nil, strErr("scripted signer failure")
+	}
 	sigs := make([]phase0.BLSSignature, len(accounts))
 	for i, a := range accounts {
 		sigs[i] = sigFor(1, a, uint64(slot)*16+subcommittees[i])
@@ -136,17 +162,23 @@ func (scmSigner) SignSyncCommitteeSelections(_ context.Context, accounts []e2wty
 	return sigs, nil
 }
 
-func (scmSigner) SignSyncCommitteeRoots(_ context.Context, accounts []e2wtypes.Account, epoch phase0.Epoch, _ phase0.Root) ([]phase0.BLSSignature, error) {
+func (d scmSigner) SignSyncCommitteeRoots(ctx context.Context, accounts []e2wtypes.Account, epoch phase0.Epoch, _ phase0.Root) ([]phase0.BLSSignature, error) {
+	if d.f.hit("signroots-err", d.key(ctx, uint64(len(accounts)))) {
+		return nil, strErr("scripted signer failure")
+	}
 	sigs := make([]phase0.BLSSignature, len(accounts))
 	for i, a := range accounts {
-		if a != nil {
+		if a != nil && !d.f.hit("signroots-zero", d.key(ctx, uint64(i))) {
 			sigs[i] = sigFor(2, a, uint64(epoch))
 		}
 	}
 	return sigs, nil
 }
 
-func (scmSigner) SignContributionAndProofs(_ context.Context, accounts []e2wtypes.Account, _ []*altair.ContributionAndProof) ([]phase0.BLSSignature, error) {
+func (d scmSigner) SignContributionAndProofs(ctx context.Context, accounts []e2wtypes.Account, _ []*altair.ContributionAndProof) ([]phase0.BLSSignature, error) {
+	if d.f.hit("signcontrib-err", d.key(ctx, uint64(len(accounts)))) {
+		return nil, strErr("scripted signer failure")
+	}
 	sigs := make([]phase0.BLSSignature, len(accounts))
 	for i, a := range accounts {
 		sigs[i] = sigFor(3, a, 0)
@@ -154,9 +186,12 @@ func (scmSigner) SignContributionAndProofs(_ context.Context, accounts []e2wtype
 	return sigs, nil
 }
 
-type scmContributions struct{}
+type scmContributions struct{ scmFaults }
 
-func (scmContributions) SyncCommitteeContribution(_ context.Context, opts *api.SyncCommitteeContributionOpts) (*api.Response[*altair.SyncCommitteeContribution], error) {
+func (d scmContributions) SyncCommitteeContribution(ctx context.Context, opts *api.SyncCommitteeContributionOpts) (*api.Response[*altair.SyncCommitteeContribution], error) {
+	if d.f.hit("contribution-err", d.key(ctx, uint64(opts.Slot)%64<<2^opts.SubcommitteeIndex)) {
+		return nil, strErr("scripted contribution failure")
+	}
 	bits := bitfield.NewBitvector128()
 	bits.SetBitAt(1, true)
 	return &api.Response[*altair.SyncCommitteeContribution]{Data: &altair.SyncCommitteeContribution{
@@ -167,17 +202,18 @@ func (scmContributions) SyncCommitteeContribution(_ context.Context, opts *api.S
 	}, Metadata: map[string]any{}}, nil
 }
 
-func buildSCMServices(clk *clock, accts *fixedAccounts, spe uint64) (*standardmessenger.Service, *standardaggregator.Service, error) {
+func buildSCMServices(clk *clock, accts *fixedAccounts, spe uint64, f faults) (*standardmessenger.Service, *standardaggregator.Service, error) {
 	ctx := context.Background()
+	sf := scmFaults{f: f, clk: clk}
 	agg, err := standardaggregator.New(ctx,
 		standardaggregator.WithLogLevel(zerolog.Disabled),
 		standardaggregator.WithMonitor(nullmetrics.New()),
 		standardaggregator.WithSpecProvider(newSpec(spe)),
-		standardaggregator.WithBeaconBlockRootProvider(scmRoots{}),
-		standardaggregator.WithContributionAndProofSigner(scmSigner{}),
+		standardaggregator.WithBeaconBlockRootProvider(scmRoots{sf}),
+		standardaggregator.WithContributionAndProofSigner(scmSigner{sf}),
 		standardaggregator.WithValidatingAccountsProvider(accts),
-		standardaggregator.WithSyncCommitteeContributionProvider(scmContributions{}),
-		standardaggregator.WithSyncCommitteeContributionsSubmitter(scmSubmitter{}),
+		standardaggregator.WithSyncCommitteeContributionProvider(scmContributions{sf}),
+		standardaggregator.WithSyncCommitteeContributionsSubmitter(scmSubmitter{sf}),
 		standardaggregator.WithChainTime(clk),
 	)
 	if err != nil {
@@ -190,12 +226,12 @@ func buildSCMServices(clk *clock, accts *fixedAccounts, spe uint64) (*standardme
 		standardmessenger.WithSpecProvider(newSpec(spe)),
 		standardmessenger.WithChainTimeService(clk),
 		standardmessenger.WithSyncCommitteeAggregator(agg),
-		standardmessenger.WithBeaconBlockRootProvider(scmRoots{}),
-		standardmessenger.WithSyncCommitteeMessagesSubmitter(scmSubmitter{}),
+		standardmessenger.WithBeaconBlockRootProvider(scmRoots{sf}),
+		standardmessenger.WithSyncCommitteeMessagesSubmitter(scmSubmitter{sf}),
 		standardmessenger.WithSyncCommitteeSubscriptionsSubmitter(nopSubscriptions{}),
 		standardmessenger.WithValidatingAccountsProvider(accts),
-		standardmessenger.WithSyncCommitteeSelectionSigner(scmSigner{}),
-		standardmessenger.WithSyncCommitteeRootSigner(scmSigner{}),
+		standardmessenger.WithSyncCommitteeSelectionSigner(scmSigner{sf}),
+		standardmessenger.WithSyncCommitteeRootSigner(scmSigner{sf}),
 	)
 	if err != nil {
 		return nil, nil, fmt.Errorf("messenger: %w", err)
@@ -203,30 +239,35 @@ func buildSCMServices(clk *clock, accts *fixedAccounts, spe uint64) (*standardme
 	return msgr, agg, nil
 }
 
-func newSyncDuty(accts *fixedAccounts, nVals uint64, slot uint64) *synccommitteemessenger.Duty {
+// newSyncDuty: a validator's account is missing (exited validator still in the
+// committee) where the fault script says so.
+func newSyncDuty(accts *fixedAccounts, nVals uint64, slot uint64, f faults) *synccommitteemessenger.Duty {
 	indices := make(map[phase0.ValidatorIndex][]phase0.CommitteeIndex, nVals)
 	for v := uint64(0); v < nVals; v++ {
 		indices[phase0.ValidatorIndex(v)] = []phase0.CommitteeIndex{phase0.CommitteeIndex(v), phase0.CommitteeIndex(v + 8)}
 	}
 	d := synccommitteemessenger.NewDuty(phase0.Slot(slot), indices)
 	for v := uint64(0); v < nVals; v++ {
+		if f.hit("no-account", slot<<4^v) {
+			continue
+		}
 		d.SetAccount(phase0.ValidatorIndex(v), accts.accts[v])
 	}
 	return d
 }
 
 func (w *scmWorld) newDuty(slot uint64) *synccommitteemessenger.Duty {
-	return newSyncDuty(w.accts, w.nVals, slot)
+	return newSyncDuty(w.accts, w.nVals, slot, w.f)
 }
 
 func buildSCM(sc *Scenario) (world, error) {
-	w := &scmWorld{sc: sc, nVals: sc.P["vals"], base: 3200}
+	w := &scmWorld{sc: sc, nVals: sc.P["vals"], base: 3200, f: newFaults(sc.P)}
 	if w.nVals == 0 || w.nVals > 8 {
 		return nil, fmt.Errorf("bad parameters")
 	}
 	w.clock = newClock(32, w.base)
 	w.accts = newFixedAccounts(int(w.nVals))
-	msgr, agg, err := buildSCMServices(w.clock, w.accts, 32)
+	msgr, agg, err := buildSCMServices(w.clock, w.accts, 32, w.f)
 	if err != nil {
 		return nil, err
 	}
@@ -234,9 +275,8 @@ func buildSCM(sc *Scenario) (world, error) {
 	// history of earlier slots (sequential)
 	for i := uint64(0); i < sc.P["pre"]; i++ {
 		slot := w.base - sc.P["pre"] + i
-		if _, err := w.msgr.Message(context.Background(), w.newDuty(slot)); err != nil {
-			return nil, err
-		}
+		// (a scripted fault may make one of these fail: then that slot has no record)
+		_, _ = w.msgr.Message(context.Background(), w.newDuty(slot))
 	}
 	return w, nil
 }
@@ -259,14 +299,16 @@ const (
 	stageAggregate
 )
 
-func (w *scmWorld) run(rep int, _ int, _ *Role, op *Op) {
-	ctx := context.Background()
+func (w *scmWorld) run(rep int, _ int, _ *Role, op *Op, call uint64) {
+	ctx := withCall(context.Background(), call)
 	slot := w.slotOf(rep, op.A)
 	switch op.K {
 	case "slot":
 		duty := w.duties[slot]
 		if op.B&stagePrepare != 0 {
-			_ = w.msgr.Prepare(ctx, duty)
+			if err := w.msgr.Prepare(ctx, duty); err != nil {
+				return // the controller does not schedule the message job then
+			}
 		}
 		if op.B&stageMessage != 0 {
 			if _, err := w.msgr.Message(ctx, duty); err != nil {
@@ -332,10 +374,12 @@ func init() {
 				}},
 		},
 		params: func(t *rapid.T) map[string]uint64 {
-			return map[string]uint64{
+			p := map[string]uint64{
 				"vals": rapid.Uint64Range(1, 6).Draw(t, "vals"),
 				"pre":  rapid.SampledFrom([]uint64{0, 0, 40, 99, 120}).Draw(t, "pre"),
 			}
+			genFaults(t, p)
+			return p
 		},
 		build: buildSCM,
 	})
